@@ -72,6 +72,10 @@ pub struct Cfg {
     /// catches a job's panic and discards the payload dies there, after the job's own panic has been dealt with)
     #[serde(default)]
     pub payload_bomb: bool,
+    /// C15: the scheduling attempts on the panicked object are made by destructors while their caller unwinds from a panic
+    /// of its own (each under its own catch_unwind): `thread::panicking()` is true throughout the call
+    #[serde(default)]
+    pub unwinding_attempts: bool,
 }
 
 #[derive(Clone, Copy, Debug, PartialEq, Eq, Serialize, Deserialize)]
@@ -361,8 +365,8 @@ impl Case {
     pub fn pretty(&self) -> String {
         let mut s = String::new();
         s.push_str(&format!(
-            "cfg: pool={} objects={} gates={} streams={} level={:?} unlock_points={} spurious={:?} pre_open={:?} root_holds={} double_wake={} gate_keep_all={} payload_bomb={}\n",
-            self.cfg.pool, self.cfg.objects, self.cfg.gates, self.cfg.streams, self.cfg.level, self.cfg.unlock_points, self.cfg.spurious, self.cfg.pre_open, self.cfg.root_holds, self.cfg.double_wake, self.cfg.gate_keep_all, self.cfg.payload_bomb
+            "cfg: pool={} objects={} gates={} streams={} level={:?} unlock_points={} spurious={:?} pre_open={:?} root_holds={} double_wake={} gate_keep_all={} payload_bomb={} unwinding_attempts={}\n",
+            self.cfg.pool, self.cfg.objects, self.cfg.gates, self.cfg.streams, self.cfg.level, self.cfg.unlock_points, self.cfg.spurious, self.cfg.pre_open, self.cfg.root_holds, self.cfg.double_wake, self.cfg.gate_keep_all, self.cfg.payload_bomb, self.cfg.unwinding_attempts
         ));
         for (pi, ph) in self.phases.iter().enumerate() {
             s.push_str(&format!("phase {}: root={:?} must_finish={:?} expect_panicked={:?} probe={}\n", pi, ph.root, ph.must_finish_objs, ph.expect_panicked, ph.capacity_probe));
